@@ -9,6 +9,7 @@
   * `inBase_current_system_preserves_SI` — the branch "SI E&M unit, unit system with an MKS
     current" (`qp`, `qe`, `q_pl` in mks, imperial, galactic, solar, geometrized, planck and every
     user system): the reading in the system's unit denotes the same quantity.
+  * `inBase_gaussian_reading` — the Gaussian branch multiplies the reading by exactly the row's factor.
   * `inBase_plain_preserves_SI` — the plain route, offset-free units.
   * `materialise_preserves_quantity` — the combined statement for `add_constants`.
   * `addConstantsRow_mks_is_table`, `addConstantsRow_plain_is_materialise`.
@@ -106,15 +107,20 @@ theorem getConversionFactor_offsetFree (a b : UnitV K) (f : K × Option K)
     simp only [h0, if_true] at h
     cases h; rfl
 
+/-- the unit object carries the data its own expression resolves to in the registry table (true of
+    every `Unit(...)` object; decided for every row of the regenerated constants table in
+    `UnytProofs/C15TabAdd.lean`) -/
+def Resolves (pre : Prefixes K) (t : Lut K) (u : UnitV K) : Prop :=
+  ∀ nu, mkUnit pre t u.expr = .ok nu → nu.scale = u.scale ∧ nu.offset = u.offset ∧ nu.dim = u.dim
+
 /-- **an SI electromagnetic unit in a unit system that has an MKS current** (`C`, `A`, `T`, `V`,
     `Ω`, prefixed or not — the charge constants `qp`, `qe`, `q_pl` — in mks, imperial, galactic,
     solar, geometrized, planck and every user system): `in_base` preserves the SI magnitude and the
-    dimension.  `hreg`: the unit is what its own expression resolves to in the registry (true of
-    every `Unit(...)` object); offset-free units (every unit of an EM dimension). -/
+    dimension.  Offset-free units (every unit of an EM dimension). -/
 theorem inBase_current_system_preserves_SI (S : USys K) (u v : UnitV K) (x y : K) (m : EmMap K)
     (hc : checkEm pre t T S u = .ok (some m)) (hcur : (u.dim.hasCurrent && S.hasCurrent) = true)
     (h : inBase pre t T S u x = .ok (y, v))
-    (hreg : mkUnit pre t u.expr = .ok u) (hu0 : u.offset = 0) (hv0 : v.offset = 0) (hv : v.scale ≠ 0) :
+    (hreg : Resolves pre t u) (hu0 : u.offset = 0) (hv0 : v.offset = 0) (hv : v.scale ≠ 0) :
     y * v.scale = x * u.scale ∧ v.dim = u.dim := by
   rcases checkEm_shape pre t T S u m hc with ⟨_, hcanon, hscale, _⟩ | ⟨hno, _⟩
   · rcases inBase_em_route pre t T S u v x y m hc h with ⟨_, hy, hvu⟩ | ⟨_, nu, f, _, hnu, hf, hy⟩
@@ -123,15 +129,49 @@ theorem inBase_current_system_preserves_SI (S : USys K) (u v : UnitV K) (x y : K
         rw [hcanon, hscale]
         have : (1 : K) * u.expr.coeff = u.expr.coeff := by grind
         rw [this]
-      rw [hexpr, hreg] at hnu
-      cases hnu
-      obtain ⟨hfe, hd⟩ := getConversionFactor_offsetFree pre t u v f hu0 hv0 hf
+      rw [hexpr] at hnu
+      obtain ⟨hs, ho, hdm⟩ := hreg nu hnu
+      obtain ⟨hfe, hd⟩ := getConversionFactor_offsetFree pre t nu v f (by rw [ho, hu0]) hv0 hf
       subst hfe
       subst hy
-      refine ⟨?_, hd.symm⟩
+      refine ⟨?_, by rw [← hd, hdm]⟩
       simp only [applyFactor]
+      rw [hs]
       grind
   · rw [hcur] at hno; cases hno
+
+/-- **the Gaussian branch** (the unit does not carry the MKS current or the system has no current
+    unit: `C → statC`, `T → G`, … in cgs-like systems, `statC → C` elsewhere): the target is the
+    partner unit of the `em_conversions` row and the reading is multiplied by exactly the row's
+    factor — whatever the table says the partner's scale is.  (`P`: the positive part on which the
+    power laws hold; the partner's symbols resolve with positive scales.) -/
+theorem inBase_gaussian_reading (P : K → Prop) (laws : RPowLaws (RPow.rpow (K := K)) P)
+    (S : USys K) (u v : UnitV K) (x y : K) (m : EmMap K)
+    (hc : checkEm pre t T S u = .ok (some m)) (hcur : (u.dim.hasCurrent && S.hasCurrent) = false)
+    (hm : umMatches S u = false) (h : inBase pre t T S u x = .ok (y, v))
+    (hpos : AllPos P pre t m.canon.expr.factors) (val : K) (d : Dim)
+    (hd : denoteF pre t m.canon.expr.factors = some (val, d))
+    (hnu0 : ∀ nu, mkUnit pre t ⟨m.scale * m.canon.expr.coeff, m.canon.expr.factors⟩ = .ok nu → nu.offset = 0)
+    (hv0 : v.offset = 0) (hv : v.scale ≠ 0) :
+    ∃ p r, emHit pre t T u = some (p, r) ∧ y = x * r.factor := by
+  rcases checkEm_shape pre t T S u m hc with ⟨hyes, _⟩ | ⟨_, hconv, p, r, hhit, _, hscale⟩
+  · rw [hcur] at hyes; cases hyes
+  · refine ⟨p, r, hhit, ?_⟩
+    rcases inBase_em_route pre t T S u v x y m hc h with ⟨hm', _⟩ | ⟨_, nu, f, htu, hnu, hf, hy⟩
+    · rw [hm] at hm'; cases hm'
+    · rw [hconv] at htu
+      simp only [Option.getD_none] at htu
+      have hvs := mkUnit_scale P laws pre t m.canon.expr v htu hpos val d hd
+      have hns := mkUnit_scale P laws pre t ⟨m.scale * m.canon.expr.coeff, m.canon.expr.factors⟩ nu hnu hpos val d hd
+      obtain ⟨hfe, _⟩ := getConversionFactor_offsetFree pre t nu v f (hnu0 nu hnu) hv0 hf
+      subst hfe
+      subst hy
+      simp only [applyFactor]
+      rw [← hscale]
+      simp only [] at hns
+      rw [hns]
+      rw [hvs] at hv ⊢
+      grind
 
 /-- **the plain route** (`_check_em_conversion` returns `()`), offset-free units: the SI magnitude
     and the dimension are preserved -/
@@ -163,7 +203,7 @@ theorem inBase_plain_preserves_SI (S : USys K) (u v : UnitV K) (x y : K)
 theorem materialise_preserves_quantity (S : USys K) (u v : UnitV K) (x y : K)
     (hroute : T.hasDim u.dim = true → (u.dim.hasCurrent && S.hasCurrent) = true)
     (h : materialise pre t T S u x = .ok (y, v))
-    (hreg : mkUnit pre t u.expr = .ok u) (hu0 : u.offset = 0) (hv0 : v.offset = 0) (hv : v.scale ≠ 0) :
+    (hreg : Resolves pre t u) (hu0 : u.offset = 0) (hv0 : v.offset = 0) (hv : v.scale ≠ 0) :
     siMag (y, v) = siMag (x, u) ∧ v.dim = u.dim := by
   simp only [siMag]
   simp only [materialise] at h
